@@ -9,7 +9,8 @@
 (*     either panics (fails loudly) or is held to the same statement;      *)
 (*   - point and many-point interpreter results equal, bit for bit (NaN    *)
 (*     matching NaN), the reference = the graph evaluated operation by     *)
-(*     operation, for every output, one result per requested sample;       *)
+(*     operation, for every output, one result per requested sample, also  *)
+(*     for calls over thousands of samples;                                *)
 (*   - for programs of the exact sub-language Z the value is additionally  *)
 (*     recomputed here, in Integers, from the SSA tape.                    *)
 (* A rejected line is reported and the run continues with the next line.   *)
@@ -44,6 +45,11 @@ EvalFails(r, e) ==
   \cup (IF NoVars(r) \/ SeqSame(e.sl, e.ref) THEN {} ELSE {"slice"})
   \cup (IF ZOk(r, e) THEN {} ELSE {"zvalue"})
 
+(* a many-point call over 1024 .. 4099 samples (every 16th tape): exactly one result per requested sample for every  *)
+(* output, each equal, bit for bit, to what the short call returned for the same inputs (compared by the recorder)    *)
+LongOk(r) == "long" \notin DOMAIN r \/
+             (r.long.bad = 0 /\ Len(r.long.lens) = r.nout /\ \A k \in 1..Len(r.long.lens) : r.long.lens[k] = r.long.len)
+
 Fails(r) ==
   IF r.panic THEN (IF r.n < 3 THEN {} ELSE {"panic"})
   ELSE (IF Implements(r.ssa, r.asm, r.nout) THEN {} ELSE {"implements"})
@@ -51,6 +57,7 @@ Fails(r) ==
     \cup (IF SsaWellFormed(r.ssa) THEN {} ELSE {"ssa"})
     \cup (IF r.nch = CountChoices(r.ssa) /\ r.nout = CountClass(r.ssa, 0) THEN {} ELSE {"counts"})
     \cup (IF r.err = "" THEN {} ELSE {"err"})
+    \cup (IF LongOk(r) THEN {} ELSE {"slice-long"})
     \cup UNION {EvalFails(r, r.evals[k]) : k \in 1..Len(r.evals)}
 
 (* DAGs emitted by Flatten.tla and built through the real Context: the recorded SSA tape is, op for op, the tape the *)
